@@ -24,7 +24,10 @@ type Account struct {
 	Balance  int
 }
 
-// Ledger depends on both.
+// Ledger depends on both. Its custom query names placeholders that are not
+// compared to a column with "=": whatever the generator makes of them, it makes
+// the same thing every time.
+// gomacro:QUERY TrimLedgers DELETE FROM Ledger WHERE IdClient > $lo$ AND IdClient < $hi$ AND IdAccount != $skip$ AND Id = $id$ AND Id >= $floor$;
 type Ledger struct {
 	Id        int64
 	IdClient  IdClient
